@@ -264,7 +264,14 @@ func cmdCheck(args []string) int {
 					}
 				}
 			}
-			outcomes[i] = h.Explore()
+			per := *workers / len(specs)
+			if per < 1 {
+				per = 1
+			}
+			if per > 8 {
+				per = 8
+			}
+			outcomes[i] = h.ExploreParallel(per, func() (*Solver, error) { return NewSolver("z3", tc.TimeoutMs) })
 		}(i, sp)
 	}
 	wg.Wait()
